@@ -125,7 +125,9 @@ class MoveImportsToTypeCheckingBlockVisitor(ContextAwareTransformer):
     def _remove_typing_module(import_item_list: List[ImportItem]) -> List[ImportItem]:
         ret: List[ImportItem] = []
         for import_item in import_item_list:
-            if import_item.module_name != "typing":
+            # mypy_extensions provides the TypedDict base class of generated
+            # class definitions, which is evaluated when the module is imported
+            if import_item.module_name not in ("typing", "mypy_extensions"):
                 ret.append(import_item)
         return ret
 
